@@ -52,6 +52,7 @@ type c12bCase struct {
 	mode        string
 	max, target fees.Dimensions
 	rc          [7]uint64
+	bal         [3]uint64 // sponsor balances of the parent state (build lines; exec lines run with rich sponsors)
 	txs         []c12bTx
 }
 
@@ -87,11 +88,11 @@ func c12bBuild(t *c12bTx, seq int, blockTime int64) (*chain.Transaction, error) 
 }
 
 func c12bParse(f []string) (*c12bCase, bool) {
-	if len(f) < 21 || f[0] != "blk" || (f[1] != "exec" && f[1] != "build") {
+	if len(f) < 24 || f[0] != "blk" || (f[1] != "exec" && f[1] != "build") {
 		return nil, false
 	}
 	c := &c12bCase{mode: f[1]}
-	nums := make([]uint64, 17)
+	nums := make([]uint64, 20)
 	for i := range nums {
 		v, err := strconv.ParseUint(f[2+i], 10, 64)
 		if err != nil {
@@ -102,11 +103,12 @@ func c12bParse(f []string) (*c12bCase, bool) {
 	copy(c.max[:], nums[0:5])
 	copy(c.target[:], nums[5:10])
 	copy(c.rc[:], nums[10:17])
-	nT, err := strconv.Atoi(f[19])
+	copy(c.bal[:], nums[17:20])
+	nT, err := strconv.Atoi(f[22])
 	if err != nil || nT < 0 || nT > 64 {
 		return nil, false
 	}
-	pos := 20
+	pos := 23
 	next := func() (string, bool) {
 		if pos >= len(f) {
 			return "", false
@@ -189,6 +191,7 @@ func c12bLine(c *c12bCase) string {
 	for _, v := range c.rc {
 		fmt.Fprintf(&sb, " %d", v)
 	}
+	fmt.Fprintf(&sb, " %d %d %d", c.bal[0], c.bal[1], c.bal[2])
 	fmt.Fprintf(&sb, " %d", len(c.txs))
 	for _, t := range c.txs {
 		fmt.Fprintf(&sb, " %d %d %d", t.size, t.authCU, len(t.acus))
@@ -215,8 +218,8 @@ var c12bRich = map[int]uint64{hNumActionKeys: 1 << 60, hNumActionKeys + 1: 1 << 
 
 // c12bExecute runs Processor.Execute on a block holding exactly txs (parent: height 0, time 0,
 // empty fee state). It returns the canonical outcome and the execution results.
-func c12bExecute(ctx context.Context, metrics *chain.ChainMetrics, rules *genesis.Rules, txs []*chain.Transaction, blockTime int64, parentTs int64) (string, *chain.ExecutionResults) {
-	db, err := newParentDB(c12bRich, 0, parentTs)
+func c12bExecute(ctx context.Context, metrics *chain.ChainMetrics, rules *genesis.Rules, txs []*chain.Transaction, blockTime int64, parentTs int64, bal map[int]uint64) (string, *chain.ExecutionResults) {
+	db, err := newParentDB(bal, 0, parentTs)
 	if err != nil {
 		return "err-db", nil
 	}
@@ -339,7 +342,7 @@ func TestVerifC12Block(t *testing.T) {
 		}
 
 		if c.mode == "exec" {
-			out, er := c12bExecute(ctx, metrics, rules, txs, blockTime, 0)
+			out, er := c12bExecute(ctx, metrics, rules, txs, blockTime, 0, c12bRich)
 			r.Emit(l, out)
 			r.Count("exec:" + strings.Fields(out)[0])
 			// exact totals of the block's transactions
@@ -376,7 +379,8 @@ func TestVerifC12Block(t *testing.T) {
 
 		// build: mempool holds the transactions; then verify the built block
 		r.Emit(l, "build-done")
-		db, err := newParentDB(c12bRich, 0, now-5000)
+		bal := map[int]uint64{hNumActionKeys: c.bal[0], hNumActionKeys + 1: c.bal[1], hNumActionKeys + 2: c.bal[2]}
+		db, err := newParentDB(bal, 0, now-5000)
 		if err != nil {
 			continue
 		}
@@ -414,9 +418,12 @@ func TestVerifC12Block(t *testing.T) {
 		if len(b.eb.StatelessBlock.Txs) < len(txs) {
 			r.Distinct(l)
 		}
+		if c.bal != [3]uint64{1 << 60, 1 << 60, 1 << 60} {
+			r.Count("build:poor-sponsor")
+		}
 		c12bOracle(r, "BuildBlock", l, c.max, b.eb.StatelessBlock.Txs, rules, b.ob.ExecutionResults)
 		// the built block verifies with the same consumption
-		out, er := c12bExecute(ctx, metrics, rules, b.eb.StatelessBlock.Txs, b.eb.StatelessBlock.Tmstmp, now-5000)
+		out, er := c12bExecute(ctx, metrics, rules, b.eb.StatelessBlock.Txs, b.eb.StatelessBlock.Tmstmp, now-5000, bal)
 		if er == nil {
 			r.Violation("built-block-rejected", "the built block is rejected by Execute (%s): %s", out, l)
 		} else if er.UnitsConsumed != b.ob.ExecutionResults.UnitsConsumed {
@@ -478,7 +485,42 @@ func c12bGenerate(r *verifh.Run) []string {
 				}
 			}
 		}
-		switch rng.Intn(5) {
+		c.bal = [3]uint64{1 << 60, 1 << 60, 1 << 60}
+		poor := c.mode == "build" && rng.Intn(2) == 0
+		if poor {
+			// a sponsor whose balance pays all but the last unit of its transactions' fees
+			// (unit prices are 1, so a fee is the sum of the units): whichever order the
+			// builder tries them in, one passes the unit check and then fails PreExecute
+			s := c.txs[rng.Intn(nT)].sponsor
+			if nT >= 2 && rng.Intn(3) != 0 { // make sure the sponsor has at least two transactions
+				for tries := 0; tries < 2; tries++ {
+					c.txs[rng.Intn(nT)].sponsor = s
+				}
+			}
+			var fees_ uint64
+			for i := range c.txs {
+				if c.txs[i].sponsor == s {
+					real, _ := c12bBuild(&c.txs[i], i, genTime)
+					u, _ := real.Units(hBalance, rules)
+					for k := range u {
+						fees_ += u[k]
+					}
+				}
+			}
+			switch rng.Intn(3) {
+			case 0:
+				c.bal[s] = fees_ - 1
+			case 1:
+				c.bal[s] = fees_ / 2
+			default:
+				c.bal[s] = fees_ - uint64(rng.Intn(int(fees_/2)+1)) - 1
+			}
+		}
+		mx := rng.Intn(5)
+		if poor && rng.Intn(3) != 0 {
+			mx = 3 // generous maximum: only the balance decides
+		}
+		switch mx {
 		case 0:
 			c.max = total
 		case 1:
